@@ -89,6 +89,7 @@ type GhostVar struct {
 	Name, Type string
 	Init       string
 	PkgPath    string
+	Local      bool // private to one invocation: never in a mod-set
 }
 
 type LemmaSpec struct {
@@ -270,6 +271,16 @@ func (ss *SpecSet) loadFile(path, pkgPath string) error {
 		case "ghost":
 			// ghost var name T [= init]
 			w2, r2 := splitWord(rest)
+			if w2 == "local" {
+				// ghost local name T : a specification variable private to one
+				// invocation of the function whose site clauses assign it (a
+				// captured reading, a per-call flag). It is not part of any
+				// mod-set: calls - nested invocations included - never change it.
+				name, typ := splitWord(r2)
+				ss.Ghosts[name] = &GhostVar{Name: name, Type: strings.TrimSpace(typ), PkgPath: pkgPath, Local: true}
+				localGhosts[name] = true
+				continue
+			}
 			if w2 != "var" && cur != nil {
 				// function-level ghost update: ghost name = expr (at function exit)
 				//                        or:   ghost entry name = expr (at function entry)
